@@ -119,7 +119,7 @@ fn c35(cli: &Cli) {
                                 Err(viol("base-shift", format!("estimate depends on the base height: (0,{h}) -> {v}, (7,{}) -> {shifted:?}", h + 7)))
                             } else if v < refv {
                                 Err(viol(
-                                    format!("below-compounded:{}", classify_below(refv, v, h, pct)),
+                                    below_sig(format!("f:{price}:{pct}:{h}"), refv, v, h, pct),
                                     format!("estimate {v} < integer-compounded price {refv} for price={price} pct={pct} horizon={h}"),
                                 ))
                             } else if let Some((ph, pv)) = prev.filter(|(_, pv)| *pv > v) {
@@ -168,7 +168,7 @@ fn c35(cli: &Cli) {
                                 Ok(v) => {
                                     let refv = compounded(exec, ep as u64, h).saturating_add(compounded(da, dp as u64, h));
                                     let res = if v < refv {
-                                        Err(viol(format!("below-compounded:{}", classify_below(refv, v, h, ep.max(dp) as u64)), format!("worst_case {v} < compounded {refv} (exec={exec} da={da} ep={ep} dp={dp} h={h})")))
+                                        Err(viol(below_sig(format!("w:{exec}:{da}:{ep}:{dp}:{base}:{h}"), refv, v, h, ep.max(dp) as u64), format!("worst_case {v} < compounded {refv} (exec={exec} da={da} ep={ep} dp={dp} h={h})")))
                                     } else if prev.map(|p| p > v).unwrap_or(false) {
                                         Err(viol("non-monotone", format!("worst_case decreases at h={h}: {prev:?} -> {v}")))
                                     } else {
@@ -187,6 +187,13 @@ fn c35(cli: &Cli) {
     run.add_sweep(sw2);
     run.assume("reference = integer compounding p += floor(p*pct/100) per block, saturating at u64::MAX");
     run.assume("f64 arithmetic of the host (IEEE-754 round-to-nearest-even)");
+    run.assume("known float-rounding witnesses are listed one by one in harness/vh-gas/known_c35_witnesses.json; any unlisted failing input is a violation");
+    if std::env::var("VH_C35_DUMP").is_ok() {
+        let d = DUMP.lock().unwrap();
+        std::fs::write(witnesses_path(), serde_json::to_string_pretty(&*d).unwrap()).unwrap();
+        println!("dumped {} witnesses", d.len());
+    }
+    run.note("listed_known_witnesses", json!(KNOWN_WITNESSES.get().map(|k| k.len()).unwrap_or(0)));
     run.finish();
 }
 
@@ -195,6 +202,37 @@ fn classify_c35(h: u32, pct: u64) -> &'static str {
         "table-edge-25"
     } else {
         "other"
+    }
+}
+
+
+// The genuine float-rounding shortfalls of the unchanged tree are recorded as a
+// known finding *witness by witness*: `known_c35_witnesses.json` lists every
+// failing input of the thorough grid with the shortfall observed. A failing
+// input that is not listed, or whose shortfall grew, gets a different
+// signature (`below-compounded:unlisted:…`) and is reported as a violation.
+static KNOWN_WITNESSES: std::sync::OnceLock<BTreeMap<String, u64>> = std::sync::OnceLock::new();
+static DUMP: std::sync::Mutex<BTreeMap<String, u64>> = std::sync::Mutex::new(BTreeMap::new());
+
+fn witnesses_path() -> std::path::PathBuf {
+    verif_root().join("harness/vh-gas/known_c35_witnesses.json")
+}
+
+fn below_sig(key: String, reference: u64, got: u64, horizon: u32, pct: u64) -> String {
+    let known = KNOWN_WITNESSES.get_or_init(|| {
+        std::fs::read_to_string(witnesses_path())
+            .ok()
+            .and_then(|s| serde_json::from_str::<BTreeMap<String, u64>>(&s).ok())
+            .unwrap_or_default()
+    });
+    let short = reference - got;
+    if std::env::var("VH_C35_DUMP").is_ok() {
+        DUMP.lock().unwrap().insert(key.clone(), short);
+    }
+    let class = classify_below(reference, got, horizon, pct);
+    match known.get(&key) {
+        Some(&s) if short <= s && class != "significant" => format!("below-compounded:{class}"),
+        _ => format!("below-compounded:unlisted:{class}"),
     }
 }
 
@@ -501,7 +539,9 @@ fn c34(cli: &Cli) {
             total.max_deviations = r.max_deviations;
         }
     }
-    run.add(total);
+    if total.transitions > 0 {
+        run.add(total);
+    }
     run.note("configurations", json!(subjects.len()));
     run.assume("rate bound is checked per update call on the scaled prices (exact integer arithmetic); clamping to min/max is exempt as the statement says");
     run.assume("DA record updates with zero recorded bytes fail after partially updating the cost totals; the statement only covers rejected non-consecutive L2 heights, so this is not checked");
